@@ -52,6 +52,21 @@ theorem C12_facts_sendAlert :
     Facts.tlcp.rxSendAlertLockedStmts = ["switch err { case alertNoRenegotiation, alertCloseNotify: c.tmp[0] = alertLevelWarning default: c.tmp[0] = alertLevelError }", "c.tmp[1] = byte(err)", "_, writeErr := c.writeRecordLocked(recordTypeAlert, c.tmp[0:2])", "if err == alertCloseNotify { return writeErr }", "return c.out.setErrorLocked(&net.OpError{Op: \"local error\", Err: err})"] :=
   ⟨rfl, rfl⟩
 
+/-- the statements the model's `closeNotify` / `closeWrite` (the write side is marked shut down
+whatever happened to the alert; the recorded result is what every later call returns) and the
+look-ahead of `read` (`lookAhead`: only with `c.input` drained and an alert buffered) transcribe -/
+theorem C12_facts_shutdown :
+    Facts.tlcp.apiCloseNotifyStmts = ["c.out.Lock()", "defer c.out.Unlock()", "if !c.closeNotifySent { c.SetWriteDeadline(time.Now().Add(time.Second * 5)) c.closeNotifyErr = c.sendAlertLocked(alertCloseNotify) c.closeNotifySent = true c.SetWriteDeadline(time.Now()) }", "return c.closeNotifyErr"] ∧
+    Facts.tlcp.apiCloseWriteStmts = ["if !c.handshakeComplete() { return errEarlyCloseWrite }", "return c.closeNotify()"] ∧
+    Facts.tlcp.apiReadLoopCond = "c.input.Len() == 0" ∧
+    Facts.tlcp.apiLookAheadCond = "n != 0 && c.input.Len() == 0 && c.rawInput.Len() > 0 && recordType(c.rawInput.Bytes()[0]) == recordTypeAlert" ∧
+    Facts.tlcp.apiLookAheadBody = "{ if err := c.readRecord(); err != nil { return n, err } }" :=
+  ⟨rfl, rfl, rfl, rfl, rfl⟩
+
+/-- `handshakeContext` watches every context that can be cancelled (not only those with a deadline):
+the model's `handshake c true` = "the interrupter closed the transport" presupposes it -/
+theorem C12_facts_cancel : Facts.tlcp.apiInterrupterCond = "ctx.Done() != nil" := rfl
+
 /-! ### frames: which fields a call can touch -/
 
 theorem handshake_frame (c : Conn) (cb : Bool) :
@@ -182,7 +197,7 @@ theorem closeWrite_frame (c : Conn) :
     (closeWrite c).1.rx = c.rx ∧ (closeWrite c).1.inErrX = c.inErrX ∧ (closeWrite c).1.rcc = c.rcc ∧
     (closeWrite c).1.closedBit = c.closedBit ∧ (c.cnSent = true → (closeWrite c).1.cnSent = true) ∧
     (closeWrite c).1.outErr = c.outErr ∧ (closeWrite c).1.hsDone = c.hsDone ∧ (closeWrite c).1.hsErr = c.hsErr ∧
-    ((closeWrite c).2 = .ok [] → (closeWrite c).1.cnSent = true) := by
+    ((closeWrite c).2 ≠ .err .earlyCloseWrite → (closeWrite c).1.cnSent = true) := by
   unfold closeWrite
   by_cases hd : c.hsDone = true
   · obtain ⟨g1, g2, g3, g4, g5, g6, g7, g8⟩ := closeNotify_frame c
@@ -359,35 +374,201 @@ theorem C12_sticky_write (c : Conn) (d : Bytes) (e : ApiErr) (hist : List Call) 
     ∃ e', (write (after (write c d).1 hist) d').2 = .err e' :=
   write_dead _ _ (writeDead_after hist _ (write_err_dead c d e h))
 
-/-- C12 (shutdown of the write side): after `CloseWrite` has succeeded, every later `Write` fails. -/
+/-- C12 (shutdown of the write side): after `CloseWrite` — whatever it returned, unless it refused
+to act because the handshake has not completed: also when the transport failed exactly at the
+close_notify record and works again afterwards — every later `Write` fails.  (`closeNotify` sets
+`closeNotifySent` whatever `sendAlertLocked` returned: `C12_facts_shutdown`.) -/
 theorem C12_write_after_closewrite (c : Conn) (hist : List Call) (d : Bytes)
-    (h : (closeWrite c).2 = .ok []) :
+    (h : (closeWrite c).2 ≠ .err .earlyCloseWrite) :
     ∃ e, (write (after (closeWrite c).1 hist) d).2 = .err e :=
   write_dead _ _ (writeDead_after hist _ (Or.inr (Or.inr (Or.inr ((closeWrite_frame c).2.2.2.2.2.2.2.2 h)))))
 
-/-- C12 (Close): after `Close` — whatever it returned — every later `Close` reports that the
-connection is closed and every later `Write` fails. -/
-theorem C12_close_twice (c : Conn) (hist : List Call) (d : Bytes) :
-    (close (after (close c).1 hist)).2 = .err .closed ∧
-    ∃ e, (write (after (close c).1 hist) d).2 = .err e := by
-  have h0 : (close c).1.closedBit = true := (close_frame c).2.2.2.1
-  have hall : ∀ (hist : List Call) (c : Conn), c.closedBit = true → (after c hist).closedBit = true := by
+/-- the shutdown of the write side has been attempted and its result is recorded -/
+def CnDone (c : Conn) (r : Option ApiErr) : Prop := c.hsDone = true ∧ c.cnSent = true ∧ c.cnErr = r
+
+theorem handshake_cn (c : Conn) (cb : Bool) :
+    (handshake c cb).1.cnErr = c.cnErr ∧ (handshake c cb).1.outLog = c.outLog ∧
+    (c.hsDone = true → (handshake c cb).1.hsDone = true) := by
+  unfold handshake
+  cases hd : c.hsDone <;> cases he : c.hsErr <;> cases cb <;> cases hl : c.localClosed <;>
+    cases hs : c.hsScript <;> simp [hd, he, hl, hs]
+
+theorem read_cn (c : Conn) (n : Nat) : (read c n).1.cnErr = c.cnErr ∧ (read c n).1.outLog = c.outLog := by
+  obtain ⟨h1, h2, _⟩ := handshake_cn c false
+  unfold Model.ConnAPI.read
+  generalize handshake c false = hr at h1 h2
+  obtain ⟨c1, e1⟩ := hr
+  simp only at h1 h2
+  repeat' split
+  all_goals simp_all
+
+theorem write_cn (c : Conn) (d : Bytes) : (write c d).1.cnErr = c.cnErr := by
+  obtain ⟨h1, h2, _⟩ := handshake_cn c false
+  unfold Model.ConnAPI.write
+  generalize handshake c false = hr at h1 h2
+  obtain ⟨c1, e1⟩ := hr
+  simp only at h1 h2
+  repeat' split
+  all_goals simp_all
+
+theorem closeNotify_done (c : Conn) (r : Option ApiErr) (hs : c.cnSent = true) (he : c.cnErr = r) :
+    closeNotify c = (c, r) := by
+  unfold closeNotify; simp [hs, he]
+
+theorem cnDone_step (c : Conn) (k : Call) (r : Option ApiErr) (h : CnDone c r) : CnDone (step c k).1 r := by
+  obtain ⟨hd, hs, he⟩ := h
+  cases k with
+  | read n =>
+    exact ⟨((read_frame c n).2.2.2.2.2 hd).1, by rw [show (step c (.read n)).1 = (read c n).1 from rfl, (read_frame c n).2.1]; exact hs,
+      by rw [show (step c (.read n)).1 = (read c n).1 from rfl, (read_cn c n).1]; exact he⟩
+  | write d =>
+    exact ⟨((write_frame c d).2.2.2.2.2.2.2 hd).1, by rw [show (step c (.write d)).1 = (write c d).1 from rfl, (write_frame c d).2.2.2.2.1]; exact hs,
+      by rw [show (step c (.write d)).1 = (write c d).1 from rfl, write_cn c d]; exact he⟩
+  | close =>
+    show CnDone (close c).1 r
+    unfold Model.ConnAPI.close
+    by_cases hcb : c.closedBit = true
+    · simp only [hcb, if_true]; exact ⟨hd, hs, he⟩
+    · simp only [hcb, Bool.false_eq_true, if_false]
+      have : closeSend { c with closedBit := true } = ({ c with closedBit := true }, r) := by
+        unfold closeSend; simp only [hd, if_true]; exact closeNotify_done _ r hs he
+      rw [this]; exact ⟨hd, hs, he⟩
+  | closeWrite =>
+    show CnDone (closeWrite c).1 r
+    unfold closeWrite
+    simp only [hd, Bool.not_true, Bool.false_eq_true, if_false, closeNotify_done c r hs he]
+    cases r <;> exact ⟨hd, hs, he⟩
+  | handshake cb =>
+    rw [step_handshake_fst]
+    exact ⟨(handshake_cn c cb).2.2 hd, by rw [(handshake_frame c cb).2.1]; exact hs, by rw [(handshake_cn c cb).1]; exact he⟩
+  | arrive it =>
+    obtain ⟨_, _, _, _, g5, _, g7, _⟩ := step_arrive_frame c it
+    refine ⟨by rw [g7]; exact hd, by rw [g5]; exact hs, ?_⟩
+    simp only [step]; split <;> exact he
+  | setWFail w => exact ⟨hd, hs, he⟩
+
+theorem cnDone_after (hist : List Call) : ∀ (c : Conn) (r : Option ApiErr), CnDone c r → CnDone (after c hist) r := by
+  induction hist with
+  | nil => intro c r h; exact h
+  | cons k ks ih => intro c r h; exact ih _ r (cnDone_step c k r h)
+
+/-- C12 (errors stay reported, shutdown): once `CloseWrite` has failed — the transport refused the
+close_notify record — every later `CloseWrite`, after any history of other calls and transport
+events (the transport may work again), reports the same error, and `Close` reports an error too:
+the close_notify is not attempted a second time. -/
+theorem C12_closewrite_sticky (c : Conn) (e : ApiErr) (hist : List Call)
+    (h : (closeWrite c).2 = .err e) (hne : e ≠ .earlyCloseWrite) :
+    (closeWrite (after (closeWrite c).1 hist)).2 = .err e ∧
+    ∃ e', (close (after (closeWrite c).1 hist)).2 = .err e' := by
+  have hd : c.hsDone = true := by
+    cases hd : c.hsDone with
+    | true => rfl
+    | false =>
+      have : (closeWrite c).2 = .err .earlyCloseWrite := by unfold closeWrite; simp [hd]
+      rw [this] at h; cases h; exact absurd rfl hne
+  have h0 : CnDone (closeWrite c).1 (some e) := by
+    unfold closeWrite at h ⊢
+    simp only [hd, Bool.not_true, Bool.false_eq_true, if_false] at h ⊢
+    have hcn : (closeNotify c).1.cnSent = true ∧ (closeNotify c).1.cnErr = (closeNotify c).2 ∧
+        (closeNotify c).1.hsDone = c.hsDone := by
+      unfold closeNotify; split <;> simp_all
+    generalize closeNotify c = r at h hcn
+    obtain ⟨c2, ae⟩ := r
+    cases ae with
+    | none => simp at h
+    | some e2 =>
+      simp only [Res.err.injEq] at h
+      subst h
+      exact ⟨by rw [hcn.2.2]; exact hd, hcn.1, hcn.2.1⟩
+  obtain ⟨k1, k2, k3⟩ := cnDone_after hist _ _ h0
+  generalize after (closeWrite c).1 hist = c3 at k1 k2 k3 ⊢
+  constructor
+  · unfold closeWrite
+    simp only [k1, Bool.not_true, Bool.false_eq_true, if_false, closeNotify_done _ _ k2 k3]
+  · unfold Model.ConnAPI.close
+    by_cases hcb : c3.closedBit = true
+    · exact ⟨.closed, by simp [hcb]⟩
+    · simp only [hcb, Bool.false_eq_true, if_false]
+      refine ⟨e, ?_⟩
+      have : closeSend { c3 with closedBit := true } = ({ c3 with closedBit := true }, some e) := by
+        unfold closeSend; simp only [k1, if_true]; exact closeNotify_done _ _ k2 k3
+      rw [this]
+
+/-- alert records this side has put on the wire through `closeNotify` (the only alerts `outLog` records) -/
+def alertsSent (c : Conn) : Nat := (c.outLog.filter (fun r => r.1 == P.tAlert)).length
+
+/-- close_notify records still to come at most: one while `closeNotifySent` is clear -/
+def cnBudget (c : Conn) : Nat := alertsSent c + (if c.cnSent then 0 else 1)
+
+theorem closeNotify_budget (c : Conn) : cnBudget (closeNotify c).1 ≤ cnBudget c := by
+  unfold closeNotify cnBudget alertsSent
+  by_cases hs : c.cnSent = true
+  · simp [hs]
+  · simp only [hs, Bool.false_eq_true, if_false]
+    by_cases he : wErr c = none
+    · simp [he, List.filter_append]
+    · simp [he]
+
+theorem write_budget (c : Conn) (d : Bytes) : cnBudget (write c d).1 = cnBudget c := by
+  obtain ⟨_, h2, _⟩ := handshake_cn c false
+  have h3 := (handshake_frame c false).2.1
+  have hA : (P.tApp == P.tAlert) = false := by decide
+  unfold Model.ConnAPI.write cnBudget alertsSent
+  generalize handshake c false = hr at h2 h3
+  obtain ⟨c1, e1⟩ := hr
+  simp only at h2 h3
+  repeat' split
+  all_goals simp_all [List.filter_append]
+
+/-- C12 (close-notify sent once): in every history of calls and transport events — also when the
+first attempt failed at the transport and the transport works again — `closeNotify` puts at most
+one close_notify record on the wire per connection, none once `closeNotifySent` is set. -/
+theorem C12_close_notify_once (c : Conn) (hist : List Call) :
+    alertsSent (after c hist) ≤ alertsSent c + (if c.cnSent then 0 else 1) := by
+  have hstep : ∀ (c : Conn) (k : Call), cnBudget (step c k).1 ≤ cnBudget c := by
+    intro c k
+    cases k with
+    | read n =>
+      show cnBudget (read c n).1 ≤ cnBudget c
+      unfold cnBudget alertsSent
+      rw [(read_cn c n).2, (read_frame c n).2.1]; exact Nat.le_refl _
+    | write d => exact Nat.le_of_eq (write_budget c d)
+    | close =>
+      show cnBudget (close c).1 ≤ cnBudget c
+      unfold Model.ConnAPI.close
+      by_cases hcb : c.closedBit = true
+      · simp [hcb]
+      · simp only [hcb, Bool.false_eq_true, if_false]
+        unfold closeSend
+        split
+        · exact closeNotify_budget { c with closedBit := true }
+        · exact Nat.le_refl _
+    | closeWrite =>
+      show cnBudget (closeWrite c).1 ≤ cnBudget c
+      unfold closeWrite
+      split
+      · exact Nat.le_refl _
+      · have := closeNotify_budget c
+        generalize closeNotify c = r at this
+        obtain ⟨c2, ae⟩ := r
+        cases ae <;> exact this
+    | handshake cb =>
+      rw [step_handshake_fst]
+      unfold cnBudget alertsSent
+      rw [(handshake_cn c cb).2.1, (handshake_frame c cb).2.1]; exact Nat.le_refl _
+    | arrive it =>
+      have h1 : (step c (.arrive it)).1.outLog = c.outLog := by simp only [step]; split <;> rfl
+      unfold cnBudget alertsSent
+      rw [h1, (step_arrive_frame c it).2.2.2.2.1]; exact Nat.le_refl _
+    | setWFail w => exact Nat.le_refl _
+  have hall : ∀ (hist : List Call) (c : Conn), cnBudget (after c hist) ≤ cnBudget c := by
     intro hist
     induction hist with
-    | nil => intro c h; exact h
-    | cons k ks ih =>
-      intro c h
-      apply ih
-      cases k with
-      | read n => rw [show (step c (.read n)).1 = (read c n).1 from rfl, (read_frame c n).1]; exact h
-      | write d => rw [show (step c (.write d)).1 = (write c d).1 from rfl, (write_frame c d).2.2.2.1]; exact h
-      | close => exact (close_frame c).2.2.2.1
-      | closeWrite => rw [show (step c .closeWrite).1 = (closeWrite c).1 from rfl, (closeWrite_frame c).2.2.2.1]; exact h
-      | handshake cb => rw [step_handshake_fst, (handshake_frame c cb).1]; exact h
-      | arrive it => rw [(step_arrive_frame c it).2.2.2.1]; exact h
-      | setWFail w => exact h
-  have h1 := hall hist _ h0
-  exact ⟨(close_frame _).2.2.2.2.2.2.2.2 h1, write_dead _ _ (Or.inl h1)⟩
+    | nil => intro c; exact Nat.le_refl _
+    | cons k ks ih => intro c; exact Nat.le_trans (ih _) (hstep c k)
+  have := hall hist c
+  unfold cnBudget at this
+  omega
 
 /-! ### reads -/
 
@@ -396,7 +577,8 @@ test and the handshake: the part that deals with the latches and the record laye
 theorem read_core (c : Conn) (n : Nat) (hn : n ≠ 0) (hrc : (c.rcc && c.closedBit) = false)
     (hd : c.hsDone = true) :
     (ReadDead c → ∃ e, (read c n).2 = .err e ∧ ReadDead (read c n).1) ∧
-    (∀ e, (read c n).2 = .err e → e ≠ .transportTemp → ReadDead (read c n).1) := by
+    (∀ e, (read c n).2 = .err e → e ≠ .transportTemp → ReadDead (read c n).1) ∧
+    (∀ d e, (read c n).2 = .okErr d e → e ≠ .transportTemp → e ≠ .block → ReadDead (read c n).1) := by
   obtain ⟨_, _, _, _, _, _, _, _, _, _, f11⟩ := handshake_frame c false
   have hh : handshake c false = (c, none) := by
     obtain ⟨a, b⟩ := f11 hd
@@ -412,9 +594,9 @@ theorem read_core (c : Conn) (n : Nat) (hn : n ≠ 0) (hrc : (c.rcc && c.closedB
     by_cases hi : c.rx.input = []
     · simp only [hi, if_true]
       exact ⟨fun _ => ⟨ex, rfl, Or.inr (Or.inr (Or.inl ⟨by simp [hx], hi⟩))⟩,
-             fun e _ _ => Or.inr (Or.inr (Or.inl ⟨by simp [hx], hi⟩))⟩
+             fun e _ _ => Or.inr (Or.inr (Or.inl ⟨by simp [hx], hi⟩)), by intro d e h; cases h⟩
     · simp only [hi, if_false]
-      refine ⟨?_, by intro e h; cases h⟩
+      refine ⟨?_, (by intro e h; cases h), (by intro d e h; cases h)⟩
       intro hdead
       rcases hdead with h | h | h | h
       · exact absurd h hnf
@@ -426,18 +608,18 @@ theorem read_core (c : Conn) (n : Nat) (hn : n ≠ 0) (hrc : (c.rcc && c.closedB
     by_cases hlc : c.rx.err = none ∧ c.rx.input = [] ∧ c.localClosed = true
     · simp only [hlc, and_self, if_true]
       exact ⟨fun _ => ⟨.closed, rfl, Or.inr (Or.inr (Or.inl ⟨by simp, hlc.2.1⟩))⟩,
-             fun e _ _ => Or.inr (Or.inr (Or.inl ⟨by simp, hlc.2.1⟩))⟩
+             fun e _ _ => Or.inr (Or.inr (Or.inl ⟨by simp, hlc.2.1⟩)), by intro d e h; cases h⟩
     · simp only [hlc, if_false]
       generalize hsq : splitQueue c.queue = sq
       obtain ⟨ws, it, rest⟩ := sq
       simp only
       generalize tailOf it = tl
-      obtain ⟨l1, l2, l3⟩ := readCall_latch P plainDec Ctx.established tl c.rx ws n hn
-      have lb := readCall_blocked P plainDec Ctx.established tl c.rx ws n
-      generalize hrcall : readCall P plainDec Ctx.established tl c.rx ws n false = rc at l1 l2 l3 lb
-      obtain ⟨⟨rx', ws'⟩, r⟩ := rc
-      simp only at l1 l2 l3 lb
-      constructor
+      generalize tailBytes it = tb
+      obtain ⟨l1, l2, lb, l3⟩ := readRec_latch tl c.seg c.raw tb c.rx ws n hn
+      generalize hrcall : readRec tl c.seg c.raw tb c.rx ws n = rc at l1 l2 lb l3
+      obtain ⟨⟨⟨rx', ws'⟩, r⟩, raw'⟩ := rc
+      simp only at l1 l2 lb l3 ⊢
+      refine ⟨?_, ?_, ?_⟩
       · -- dead before: only the record-layer latch can be the reason here
         intro hdead
         rcases hdead with h | h | h | h
@@ -454,25 +636,54 @@ theorem read_core (c : Conn) (n : Nat) (hn : n ≠ 0) (hrc : (c.rcc && c.closedB
       · intro e he hne
         cases r with
         | ok d => simp at he
-        | okErr d e' => exact absurd rfl (l2 d e')
+        | okErr d e' => simp at he
         | err e' =>
           obtain ⟨a, b⟩ := l1 e' rfl
           exact Or.inr (Or.inr (Or.inr ⟨by simp [a], b⟩))
         | blocked d =>
-          obtain ⟨hd0, hin0⟩ := lb d rfl
-          subst hd0
-          cases it with
-          | none => simp at he
-          | some i =>
-            cases i with
-            | record w => simp at he
-            | eof pt => simp at he
-            | tempErr =>
-              simp only [if_true] at he
-              cases he; exact absurd rfl hne
-            | permErr =>
-              simp only [if_true] at he ⊢
-              exact Or.inr (Or.inr (Or.inl ⟨by simp, hin0⟩))
+          have hin0 := lb d rfl
+          by_cases hd0 : d = []
+          · subst hd0
+            cases it with
+            | none => simp at he
+            | some i =>
+              cases i with
+              | record w => simp at he
+              | eof pt => simp at he
+              | tempErr =>
+                simp only [if_true] at he
+                cases he; exact absurd rfl hne
+              | permErr =>
+                simp only [if_true] at he ⊢
+                exact Or.inr (Or.inr (Or.inl ⟨by simp, hin0⟩))
+          · cases it with
+            | none => simp [hd0] at he
+            | some i => cases i <;> simp [hd0] at he
+      · -- an error returned together with bytes (look-ahead, or a transport error met by it)
+        intro d e he hne hnb
+        cases r with
+        | ok d' => simp at he
+        | err e' => simp at he
+        | okErr d' e' =>
+          obtain ⟨a, b⟩ := l2 d' e' rfl
+          exact Or.inr (Or.inr (Or.inr ⟨by simp [a], b⟩))
+        | blocked d' =>
+          have hin0 := lb d' rfl
+          by_cases hd0 : d' = []
+          · subst hd0
+            cases it with
+            | none => simp at he
+            | some i => cases i <;> simp at he
+          · cases it with
+            | none => simp [hd0] at he; exact absurd he.2.symm hnb
+            | some i =>
+              cases i with
+              | record w => simp [hd0] at he; exact absurd he.2.symm hnb
+              | eof pt => simp [hd0] at he; exact absurd he.2.symm hnb
+              | tempErr => simp [hd0] at he; exact absurd he.2.symm hne
+              | permErr =>
+                simp only [hd0, if_false]
+                exact Or.inr (Or.inr (Or.inl ⟨by simp, hin0⟩))
 
 theorem read_dead (c : Conn) (n : Nat) (hn : n ≠ 0) (h : ReadDead c) :
     ∃ e, (read c n).2 = .err e ∧ ReadDead (read c n).1 := by
@@ -522,7 +733,7 @@ theorem read_err_dead (c : Conn) (n : Nat) (hn : n ≠ 0) (e : ApiErr) (he : (re
     exact Or.inr (Or.inl hrc)
   have hrcf : (c.rcc && c.closedBit) = false := by simpa using hrc
   cases hd : c.hsDone with
-  | true => exact (read_core c n hn hrcf hd).2 e he hne
+  | true => exact (read_core c n hn hrcf hd).2.1 e he hne
   | false =>
     obtain ⟨f1, f2, f3, f4, f5, f6, f7, f8, f9, f10, f11⟩ := handshake_frame c false
     generalize hh : handshake c false = hr at *
@@ -543,7 +754,37 @@ theorem read_err_dead (c : Conn) (n : Nat) (hn : n ≠ 0) (e : ApiErr) (he : (re
         unfold Model.ConnAPI.read
         simp only [hrcf, hrc1, Bool.false_eq_true, if_false, hh, hh1]
       rw [heq] at he ⊢
-      exact (read_core c1 n hn hrc1 hd1).2 e he hne
+      exact (read_core c1 n hn hrc1 hd1).2.1 e he hne
+
+theorem read_okErr_dead (c : Conn) (n : Nat) (hn : n ≠ 0) (d : Bytes) (e : ApiErr) (he : (read c n).2 = .okErr d e)
+    (hne : e ≠ .transportTemp) (hnb : e ≠ .block) : ReadDead (read c n).1 := by
+  by_cases hrc : (c.rcc && c.closedBit) = true
+  · have : read c n = (c, .err .closed) := by unfold Model.ConnAPI.read; simp [hrc]
+    rw [this] at he; cases he
+  have hrcf : (c.rcc && c.closedBit) = false := by simpa using hrc
+  cases hd : c.hsDone with
+  | true => exact (read_core c n hn hrcf hd).2.2 d e he hne hnb
+  | false =>
+    obtain ⟨f1, f2, f3, f4, f5, f6, f7, f8, f9, f10, f11⟩ := handshake_frame c false
+    generalize hh : handshake c false = hr at *
+    obtain ⟨c1, e1⟩ := hr
+    simp only at f1 f2 f3 f4 f5 f6 f7 f8 f9 f10 f11
+    cases e1 with
+    | some e' =>
+      have : read c n = (c1, .err e') := by unfold Model.ConnAPI.read; simp [hrcf, hh]
+      rw [this] at he; cases he
+    | none =>
+      have hd1 := f8 rfl
+      have hrc1 : (c1.rcc && c1.closedBit) = false := by rw [f3, f1]; exact hrcf
+      have heq : read c n = read c1 n := by
+        have h11 := handshake_frame c1 false
+        have hh1 : handshake c1 false = (c1, none) := by
+          obtain ⟨a, b⟩ := h11.2.2.2.2.2.2.2.2.2.2 hd1
+          exact Prod.ext a b
+        unfold Model.ConnAPI.read
+        simp only [hrcf, hrc1, Bool.false_eq_true, if_false, hh, hh1]
+      rw [heq] at he ⊢
+      exact (read_core c1 n hn hrc1 hd1).2.2 d e he hne hnb
 
 theorem readDead_step (c : Conn) (k : Call) (hk : ∀ n, k = .read n → n ≠ 0) (h : ReadDead c) :
     ReadDead (step c k).1 := by
@@ -613,6 +854,90 @@ theorem C12_sticky_read (c : Conn) (n : Nat) (hn : n ≠ 0) (e : ApiErr) (hist :
       exact ih _ (fun k' hk' => hk k' (List.mem_cons_of_mem _ hk')) (readDead_step c k (hk k (by simp)) h)
   obtain ⟨e', he', _⟩ := read_dead _ n' hn' (hall hist _ hhist h0)
   exact ⟨e', he'⟩
+
+/-- C12 (read, error returned with bytes): the same when the error came together with the last
+bytes — the close-notify look-ahead of `Read` met the peer's close_notify (end-of-stream), a fatal
+alert, a forgery or a failed transport behind the data it had just handed over: every later `Read`
+fails and delivers nothing.  (A timeout, and a call cut short by the caller's own deadline, are
+exempt as above.) -/
+theorem C12_sticky_read_partial (c : Conn) (n : Nat) (hn : n ≠ 0) (d : Bytes) (e : ApiErr) (hist : List Call)
+    (n' : Nat) (hn' : n' ≠ 0) (hhist : ∀ k ∈ hist, ∀ m, k = .read m → m ≠ 0)
+    (h : (read c n).2 = .okErr d e) (hne : e ≠ .transportTemp) (hnb : e ≠ .block) :
+    ∃ e', (read (after (read c n).1 hist) n').2 = .err e' := by
+  have h0 := read_okErr_dead c n hn d e h hne hnb
+  have hall : ∀ (hist : List Call) (c : Conn), (∀ k ∈ hist, ∀ m, k = .read m → m ≠ 0) → ReadDead c →
+      ReadDead (after c hist) := by
+    intro hist
+    induction hist with
+    | nil => intro c _ h; exact h
+    | cons k ks ih =>
+      intro c hk h
+      exact ih _ (fun k' hk' => hk k' (List.mem_cons_of_mem _ hk')) (readDead_step c k (hk k (by simp)) h)
+  obtain ⟨e', he', _⟩ := read_dead _ n' hn' (hall hist _ hhist h0)
+  exact ⟨e', he'⟩
+
+theorem read_no_pending (c : Conn) (n : Nat) (h : c.rx.err ≠ some .internalPending) :
+    (read c n).1.rx.err ≠ some .internalPending := by
+  obtain ⟨_, _, _, f4, _⟩ := handshake_frame c false
+  unfold Model.ConnAPI.read
+  by_cases hrc : (c.rcc && c.closedBit) = true
+  · simp only [hrc, if_true]; exact h
+  simp only [hrc, Bool.false_eq_true, if_false]
+  generalize handshake c false = hr at f4
+  obtain ⟨c1, e1⟩ := hr
+  simp only at f4
+  have h1 : c1.rx.err ≠ some .internalPending := by rw [f4]; exact h
+  cases e1 with
+  | some e => exact h1
+  | none =>
+    simp only
+    by_cases hn : n = 0
+    · simp only [hn, if_true]; exact h1
+    simp only [hn, if_false]
+    cases hx : c1.inErrX with
+    | some ex => simp only; split <;> exact h1
+    | none =>
+      simp only
+      split
+      · exact h1
+      · generalize splitQueue c1.queue = sq
+        obtain ⟨ws, it, rest⟩ := sq
+        simp only
+        have hrr := readRec_no_pending (tailOf it) c1.seg c1.raw (tailBytes it) c1.rx ws n h1
+        generalize readRec (tailOf it) c1.seg c1.raw (tailBytes it) c1.rx ws n = rc at hrr
+        obtain ⟨⟨⟨rx', ws'⟩, r⟩, raw'⟩ := rc
+        simp only at hrr ⊢
+        cases r with
+        | ok d => exact hrr
+        | okErr d e => exact hrr
+        | err e => exact hrr
+        | blocked d =>
+          cases it with
+          | none => exact hrr
+          | some i => cases i <;> exact hrr
+
+/-- C12 (the close-notify look-ahead is safe): `readRecord` is only ever entered with `c.input`
+drained — by the loop that fills `c.input` and by the look-ahead of `Read`, whose condition
+includes `c.input.Len() == 0` (`C12_facts_shutdown`) — so the guard "attempted to read record with
+pending application data" never fires and is never latched: for every history of calls and
+transport events, however the transport segments the stream (the peer's last data record and its
+close_notify in one transport read, any read-buffer sizes), a connection that has not latched that
+internal error never does.  With `C12_eof_after_all_data` this is what makes small reads of a
+coalesced tail end in end-of-stream after every byte instead of an internal error. -/
+theorem C12_lookahead_never_pending (c : Conn) (hist : List Call) (h0 : c.rx.err ≠ some .internalPending) :
+    (after c hist).rx.err ≠ some .internalPending := by
+  induction hist generalizing c with
+  | nil => exact h0
+  | cons k ks ih =>
+    apply ih
+    cases k with
+    | read n => exact read_no_pending c n h0
+    | write d => rw [show (step c (.write d)).1 = (write c d).1 from rfl, (write_frame c d).1]; exact h0
+    | close => rw [show (step c .close).1 = (close c).1 from rfl, (close_frame c).1]; exact h0
+    | closeWrite => rw [show (step c .closeWrite).1 = (closeWrite c).1 from rfl, (closeWrite_frame c).1]; exact h0
+    | handshake cb => rw [step_handshake_fst, (handshake_frame c cb).2.2.2.1]; exact h0
+    | arrive it => rw [(step_arrive_frame c it).1]; exact h0
+    | setWFail w => exact h0
 
 /-- C12 (Close, reads): with the close-bit test in `Read` (regenerated fact `apiReadChecksClosed`,
 pinned by `C12_facts`), after `Close` every later `Read` fails and delivers nothing — also when
@@ -767,7 +1092,7 @@ theorem C12_eof_only_at_boundary (c : Conn) (hist : List Call) (h0 : NoEof c) (h
         simp only [ReadsEOF] at h
         have hstep : (step c (.read n)) = read c n := rfl
         rw [hstep] at h
-        rcases read_eofcases c n h0 with ⟨e1, e2, e3, _⟩ | ⟨_, _, _, _, hc⟩
+        rcases read_eofcases c n h0 with ⟨e1, e2, e3, _⟩ | ⟨_, _, _, hc⟩
         · rcases h with ⟨_, h⟩ | h
           · rw [e1] at h; cases h
           · exact ih _ T e2 (fun x hx => hq x (e3 x hx)) (by simpa [arrivals] using ha) h
@@ -869,7 +1194,7 @@ theorem C12_eof_after_all_data (c : Conn) (hist : List Call) (h0 : NoEof c) (d :
         simp only [untilEOF] at h
         have hstep : (step c (.read n)) = read c n := rfl
         rw [hstep] at h
-        rcases read_eofcases c n h0 with ⟨e1, e2, e3, e4⟩ | ⟨z1, z2, z3, z4, _⟩
+        rcases read_eofcases c n h0 with ⟨e1, e2, e3, e4⟩ | ⟨z1, z2, z3, _⟩
         · rw [e1] at h
           simp only [Bool.false_eq_true, if_false] at h
           refine ih _ _ _ B inp0 e2 ?_ d arr' h
@@ -881,11 +1206,10 @@ theorem C12_eof_after_all_data (c : Conn) (hist : List Call) (h0 : NoEof c) (d :
           simp only [List.append_assoc]
           rw [← List.append_assoc (read c n).2.bytes, l2]
         · rw [z1] at h
-          simp only [Res.isEOF, if_true, Res.bytes, List.append_nil, Option.some.injEq, Prod.mk.injEq] at h
+          simp only [if_true, Option.some.injEq, Prod.mk.injEq] at h
           obtain ⟨rfl, rfl⟩ := h
           obtain ⟨i1, _⟩ := hinv z2
-          rw [z3, z4] at i1
-          simpa using i1
+          rw [z3, ← List.append_assoc, i1]
       | arrive it =>
         simp only [untilEOF] at h
         obtain ⟨a1, a2, a3, a4, a5, _⟩ := arrive_queue c it
@@ -958,6 +1282,31 @@ example : run exConn [exData [1], .arrive (.eof (some (.body 23 257 40))), .read
     [.event, .event, .ok [1], .err .unexpectedEOF] := by decide
 example : ReadsEOF exConn [exData [1], .arrive (.eof none), .read 4, .read 4] := by
   simp only [ReadsEOF]; right; right; right; left; exact ⟨⟨4, rfl⟩, by decide⟩
+
+/-! the transport delivers the peer's last data record and its close_notify in one read (`seg = .all`):
+small reads get every byte, the last of them together with end-of-stream (the look-ahead), and
+end-of-stream stays reported; over a record-exact transport the same history reports it one call later -/
+def exAll : Conn := { hsDone := true, rcc := true, seg := .all }
+example : run exAll [exData [1, 2, 3, 4, 5], exCloseNotify, .read 2, .read 2, .read 2, .read 2] =
+    [.event, .event, .ok [1, 2], .ok [3, 4], .okErr [5] .eof, .err .eof] := by decide
+example : run exConn [exData [1, 2, 3, 4, 5], exCloseNotify, .read 2, .read 2, .read 2, .read 2] =
+    [.event, .event, .ok [1, 2], .ok [3, 4], .ok [5], .err .eof] := by decide
+example : untilEOF exAll [exData [1, 2, 3, 4, 5], exCloseNotify, .read 2, .read 2, .read 2, .read 2] [] [] =
+    some ([1, 2, 3, 4, 5], [.record ⟨23, 257, [1, 2, 3, 4, 5]⟩, .record ⟨21, 257, [1, 0]⟩]) := by decide
+-- a close_notify that arrives after the last transport read is not in `c.rawInput`: no look-ahead
+example : run exAll [exData [1, 2, 3], .read 2, exCloseNotify, .read 2, .read 2] =
+    [.event, .ok [1, 2], .event, .ok [3], .err .eof] := by decide
+-- a fatal alert right behind the data: the bytes, with the error; it stays reported
+example : run exAll [exData [1, 2], .arrive (.record ⟨21, 257, [2, 40]⟩), .read 5, .read 5] =
+    [.event, .event, .okErr [1, 2] (.remoteAlert 40), .err (.remoteAlert 40)] := by decide
 end EofExamples
+
+/-! the transport fails exactly at the close_notify record of `CloseWrite` and works again afterwards:
+the write side is shut down all the same, the error stays reported, no second close_notify -/
+example : run exConn [.setWFail .temp, .closeWrite, .setWFail .none, .write [1], .closeWrite, .write [2], .close, .close] =
+    [.event, .err .transportTemp, .event, .err .shutdown, .err .transportTemp, .err .shutdown,
+     .err .transportTemp, .err .closed] := by decide
+example : (after exConn [.setWFail .perm, .closeWrite, .setWFail .none, .write [1], .closeWrite, .close]).outLog = [] := by decide
+example : (after exConn [.write [7], .closeWrite, .closeWrite, .close]).outLog = [(23, [7]), (21, [1, 0])] := by decide
 
 end Gotlcp.Props.C12
